@@ -140,10 +140,16 @@ func (e *fracEnv) build(dict [][]byte, extra map[string][][]byte, seed int64) (*
 // wideFields: hundreds of small fields, so that the token TABLE itself spans several 16 KiB index blocks while many
 // fields share one physical tokens block.
 func wideFields(n int) map[string][][]byte {
+	// names and values of VARIABLE length (a decoder that keeps views into a reused block buffer goes unnoticed when
+	// every block has the same layout), 1..4 values per field
 	m := map[string][][]byte{}
 	for i := 0; i < n; i++ {
-		f := fmt.Sprintf("w%04d_%s", i, strings.Repeat("x", 24))
-		m[f] = [][]byte{[]byte(fmt.Sprintf("v%04d-a", i)), []byte(fmt.Sprintf("v%04d-b", i)), []byte(fmt.Sprintf("v%04d-c", i))}
+		f := fmt.Sprintf("w%04d_%s", i, strings.Repeat("x", 4+(i*7)%29))
+		var vals [][]byte
+		for k := 0; k <= (i*5)%4; k++ {
+			vals = append(vals, []byte(fmt.Sprintf("v%04d-%c%s", i, 'a'+k, strings.Repeat("y", (i*11+k*3)%17))))
+		}
+		m[f] = vals
 	}
 	return m
 }
@@ -152,15 +158,27 @@ func wideTokens(extra map[string][][]byte) []tok {
 	fs := vh.SortedKeys(extra)
 	var toks []tok
 	str := func(s string) *string { return &s }
-	for k := 0; k < 48; k++ {
-		f := fs[(k*len(fs))/48+(k*7)%(len(fs)/48)]
-		i := string(extra[f][0][1:5])
+	pick := []int{}
+	for k := 0; k < 24; k++ { // the first table blocks (decoded first, overwritten last) ...
+		pick = append(pick, k*7%min(300, len(fs)))
+	}
+	for k := 0; k < 40; k++ { // ... and the whole table
+		pick = append(pick, (k*len(fs))/40+(k*7)%max(1, len(fs)/40))
+	}
+	for k, fi := range pick {
+		f := fs[fi%len(fs)]
+		vals := extra[f]
+		i := string(vals[0][1:5])
+		last := vals[len(vals)-1]
 		toks = append(toks,
-			tok{field: f, lit: []term{{data: extra[f][k%3]}}},
+			tok{field: f, lit: []term{{data: vals[k%len(vals)]}}},
+			tok{field: f, lit: []term{{data: last}}},
 			tok{field: f, lit: patTerms("v*")},
-			tok{field: f, lit: patTerms("*-b")},
 			tok{field: f, lit: patTerms("v" + i + "-*")},
+			tok{field: f, lit: []term{{data: last[:len(last)-1]}, {star: true}}},
+			tok{field: f, lit: []term{{star: true}, {data: last[len(last)-1:]}}},
 			tok{field: f, r: &rng{from: str("v"), to: str("w"), incFrom: true}},
+			tok{field: f, r: &rng{from: str(string(vals[0])), to: str(string(last)), incFrom: true, incTo: true}},
 		)
 	}
 	return toks
